@@ -357,6 +357,40 @@ fn check_tokenizer(rep: &mut Report, rng: &mut Rng) {
             });
         }
     }
+    // the property on the implementation: the tokenizer splits at blank / end-of-line boundaries (theorem lex_append)
+    let n_split = if rep.is_thorough() { 40_000 } else { 4_000 };
+    let mut n_split_done = 0u64;
+    for _ in 0..n_split {
+        let pre = texts[rng.below(texts.len() as u64) as usize].clone();
+        let suf_tail = texts[rng.below(texts.len() as u64) as usize].clone();
+        let b = *rng.pick(&['\r', '\n', ' ', '\t']);
+        let suf = format!("{}{}", b, suf_tail);
+        let last = pre.chars().last();
+        let merges = match last {
+            Some(l) => ((l == ' ' || l == '\t') && (b == ' ' || b == '\t')) || (l == '\r' && b == '\n'),
+            None => false,
+        };
+        let tp = real_tokens(&pre);
+        if merges || tp.iter().any(|(k, _)| k != "eol" && k != "ws" && k.len() > 7 && k != "keyword") {
+            continue; // errTooLong / error in pre, or the excluded merging boundary
+        }
+        n_split_done += 1;
+        rep.case(Some(format!("a{:?}|{:?}", pre, suf)));
+        let whole = real_tokens(&format!("{}{}", pre, suf));
+        let mut parts = tp.clone();
+        parts.extend(real_tokens(&suf));
+        if whole != parts {
+            rep.fail(Failure {
+                kind: Kind::ImplVsProperty,
+                signature: "tokenizer:append".into(),
+                input: format!("tokens of {:?} ++ {:?}", pre, suf),
+                implementation: tokens_sexp(&whole),
+                expected: tokens_sexp(&parts),
+                note: "at a blank / end-of-line boundary the tokens of the whole are the tokens of the parts".into(),
+            });
+        }
+    }
+    rep.bump_by("token.append-splits", n_split_done);
     for (t, want) in [("\r\n", "((eol 2))"), ("\r", "((eol 1))"), ("\n", "((eol 1))"), ("\n\r", "((eol 1) (eol 1))"), ("\r\r\n", "((eol 1) (eol 2))")] {
         let real_s = tokens_sexp(&real_tokens(t));
         rep.case(Some(format!("eol{:?}", t)));
@@ -500,6 +534,46 @@ fn check_deftype(rep: &mut Report) {
                 implementation: real_s,
                 expected: answers[c as usize].clone(),
                 note: "RbModel.Lex.charToAlphabetIndex".into(),
+            });
+        }
+    }
+}
+
+/// FIELD / LSET / GET / PUT with the variable names spelled in different case: same behaviour as with one spelling.
+fn check_field_case(rep: &mut Report) {
+    let program = |f1: &str, f2: &str, l1: &str, l2: &str, p1: &str, p2: &str| {
+        format!(
+            "OPEN \"c09fld.txt\" FOR RANDOM AS #1 LEN = 15\nFIELD #1, 10 AS {}$, 5 AS {}$\nLSET {}$ = \"Nikos\"\nLSET {}$ = \"Geo\"\nPUT #1, 1\nLSET {}$ = \"x\"\nGET #1, 1\nPRINT {}$; \"|\"; {}$; \"|\"\nCLOSE\n",
+            f1, f2, l1, l2, l1, p1, p2
+        )
+    };
+    let run = |text: &str| -> String {
+        match catch_unwind(|| run_in_memory(text, b"", 100_000, None, false)) {
+            Ok(Ok(r)) => format!("{:?} | {}", String::from_utf8_lossy(&r.stdout), if r.result.is_ok() { "ok".to_owned() } else { canon_debug(&format!("{:?}", r.result)) }),
+            Ok(Err(e)) => format!("front-end {:?}", e),
+            Err(_) => "panic".to_owned(),
+        }
+    };
+    let base_text = program("FirstName", "LastName", "FirstName", "LastName", "FirstName", "LastName");
+    let base = run(&base_text);
+    let spellings = [
+        ("firstname", "LASTNAME", "FIRSTNAME", "lastname", "FirstName", "LastName"),
+        ("FIRSTNAME", "lastname", "firstName", "LastName", "FIRSTNAME", "LASTNAME"),
+        ("FirstName", "LastName", "FIRSTNAME", "LASTNAME", "firstname", "lastname"),
+    ];
+    for (f1, f2, l1, l2, p1, p2) in spellings {
+        let text = program(f1, f2, l1, l2, p1, p2);
+        rep.case(Some(format!("f{}", text)));
+        rep.bump("field.case-variant");
+        let got = run(&text);
+        if got != base || !base.ends_with("| ok") {
+            rep.fail(Failure {
+                kind: Kind::ImplVsProperty,
+                signature: "field:case".into(),
+                input: format!("original {:?} transformed {:?}", base_text, text),
+                implementation: got,
+                expected: base.clone(),
+                note: "FIELD / LSET / GET / PUT must find their variables whatever the case of the spelling".into(),
             });
         }
     }
@@ -983,6 +1057,33 @@ fn canon_debug(d: &str) -> String {
                 out.push(cs[i].to_ascii_uppercase());
                 i += 1;
             }
+        } else if starts(i, "StringLiteral(\"") {
+            // FIELD and LSET carry the spelled name of their variable as a string literal directly in front of
+            // the variable itself; it is an identifier, not text (the run-time lookup folds case, see check_field_case)
+            let q = i + "StringLiteral(".len();
+            let e = skip_str(q).min(cs.len());
+            let lit: String = cs[q + 1..e.saturating_sub(1).max(q + 1)].iter().collect();
+            let mut j = e;
+            let mut is_name_copy = false;
+            let pre = "), pos: Position { row: ";
+            if starts(j, pre) {
+                j += pre.chars().count();
+                while j < cs.len() && cs[j] != '}' {
+                    j += 1;
+                }
+                let mid = "} }, Positioned { element: Variable(Name { bare_name: CaseInsensitiveString(\"";
+                if starts(j, mid) {
+                    j += mid.chars().count();
+                    let name: String = cs[j..].iter().take_while(|c| **c != '"').collect();
+                    is_name_copy = !lit.is_empty() && name.eq_ignore_ascii_case(&lit);
+                }
+            }
+            if is_name_copy {
+                out.extend(cs[i..e].iter().map(|c| c.to_ascii_uppercase()));
+            } else {
+                out.extend(cs[i..e].iter());
+            }
+            i = e;
         } else if starts(i, "Comment(\"") {
             let q = i + "Comment(".len();
             i = skip_str(q);
@@ -1523,6 +1624,7 @@ fn main() {
     check_keywords(&mut rep, &mut rng);
     check_deftype(&mut rep);
     check_separator(&mut rep);
+    check_field_case(&mut rep);
     check_metamorphic(&mut rep, &mut rng);
     rep.finish();
 }
